@@ -32,6 +32,20 @@ static void enc_mode(const char *fam, int alg, int pat, int maxlen)
         }
         hx_free(e); hx_free(c); hx_free(c2); hx_free(p);
     }
+    /* long lengths (narrowing of a size_t remainder to 8 or 16 bits is the realistic long-length mistake) */
+    {
+        static const size_t longs[] = {255, 256, 257, 1023, 1024, 1025, 4095, 4096, 4097, 65535, 65536, 65537};
+        uint8_t *big = malloc(70000), *e = malloc(70000), *c = malloc(70000); hx_fill(big, 70000, pat, 9);
+        for (unsigned i = 0; i < 12; i++) for (int which = 0; which < 2; which++) {
+            if (isap && alg != 0 && i > 5 && which == 0) continue;     /* the 12-round ISAP variants are slow in the bit-wise reference */
+            size_t a = which ? longs[i] : 9, l = which ? 9 : longs[i], got = 0;
+            if (isap) { ref_isap_encrypt(alg, key, nonce, big, a, big + 7, l, e); api_isap_enc[alg](c, &got, big + 7, l, big, a, nonce, &pk); }
+            else { ref_siv_encrypt(alg, key, nonce, big, a, big + 7, l, e); api_siv_enc[alg](c, &got, big + 7, l, big, a, nonce, key); }
+            hx_stat("evaluations", 1); hx_stat("nontrivial", 1);
+            if (got != l + 16 || memcmp(c, e, l + 16)) hx_fail(kb, "ciphertext differs from documented construction for long lengths adlen=%zu mlen=%zu pat=%d", a, l, pat);
+        }
+        free(big); free(e); free(c);
+    }
     if (isap) api_isap_free[alg](&pk);
     hx_sample("%s alg=%d pattern=%d: adlen,mlen in 0..%d: encrypt == reference, deterministic, reference ciphertext decrypts", fam, alg, pat, maxlen);
     free(ad); free(m);
